@@ -323,7 +323,7 @@ void COTPdoTx(CO_TPDO *pdo)
         if (pdosz <= 4) {
             /* supported mapping: 1 to 4 bytes */
             sz = COObjGetSize(pdo->Map[num], pdo->Node, 0L);
-            if (sz <= (uint32_t)(8 - frm.DLC)) {
+            if (pdosz <= (uint8_t)(8 - frm.DLC)) {
                 if (pdosz == 3) {
                     /* for 3bytes, read a basic 32bit type */
                     COObjRdValue(pdo->Map[num], pdo->Node, &data, 4u);
